@@ -73,8 +73,8 @@ def checkWitnessKey (env : Env) (k : Bytes) : Option Bool :=
 
 /-! ## Reputation -/
 
-def repCountP : Nat := Generated.reputation_reputationCountPrefix.toNat   -- 'c'
-def repValueP : Nat := Generated.reputation_reputationValuePrefix.toNat   -- 'r'
+def repCountP : Nat := (Generated.reputation_reputationCountPrefix_bytes.headD 0)   -- 'c'
+def repValueP : Nat := (Generated.reputation_reputationValuePrefix_bytes.headD 0)   -- 'r'
 
 /-- `storageID(epoch, peerID)` -/
 def storageID (e : Int) (peer : Bytes) : Bytes := encInt e ++ peer
@@ -272,7 +272,7 @@ def estIterAll (c : CState) (e : Int) : List (Bytes × Est) :=
 
 /-! ## NeoFSID -/
 
-def ownerP : Nat := Generated.neofsid_ownerKeysPrefix.toNat     -- 'o'
+def ownerP : Nat := (Generated.neofsid_ownerKeysPrefix_bytes.headD 0)     -- 'o'
 def ownerSize : Nat := Generated.neofsid_ownerSize.toNat        -- 25
 
 def fsidArgsOk (owner : Bytes) (keys : List Bytes) : Bool :=
